@@ -189,3 +189,60 @@ def feed_kernel_frames(report, tier):
         'inside that buffer and the kernels\' missing argument validation '
         'are not part of this property (C08/C19 class); misc.max_step and '
         'the Python fall-backs (use_C = False) are not covered')
+
+
+
+def feed_lapack_frames(report, tier):
+    """the frames the Python-side contracts assume for the lapack.* wrappers
+    the solvers call, discharged on lapack.c (every store into an argument's
+    buffer is into an argument the contract lists as modified)"""
+    from engine import cside
+    from engine.checks import c_common
+    from contracts.py.extern_cvxopt import LIB
+    t = 10000 if tier == 'quick' else 120000
+    fns = sorted(k.split('.')[-1] for k in LIB.mutators
+                 if k.startswith('cvxopt.lapack.'))
+    reps = cside.run_tasks([{'cfile': 'lapack.c', 'fn': f,
+                             'mode': 'lapack-wrapper', 'timeout_ms': t}
+                            for f in fns])
+    c_common.feed(report, reps, ('kernel-frame',), need_spec=True)
+
+
+
+def feed_blas_frames(report, tier):
+    """the frames the Python-side contracts assume for the blas.* wrappers:
+    the documented output arguments of each wrapper (the rows of
+    contracts/c/blas_spec.py, against which C17 proves that the real wrapper
+    stores nowhere else) are among the arguments the Python-side contract
+    lists as modified"""
+    from engine import cside
+    from engine.checks import c17
+    from engine.verdict import Ob
+    from contracts.py.extern_cvxopt import LIB
+    reps = cside.run_tasks(c17.tasks(tier))
+    for r in reps:
+        fn = r.get('function')
+        name = 'cvxopt.blas.' + fn
+        outs = (r.get('post') or {}).get('outputs')
+        if outs is None or r.get('status') != 'ok':
+            continue
+        if name in LIB.pure:
+            assumed = set()
+        elif name in LIB.mutators:
+            assumed = set(x.split()[0] for x in LIB.mutators[name])
+        else:
+            continue        # not used by the solvers: no Python-side contract
+        ok = set(outs) <= assumed
+        report.add(Ob('blas.c:%s:kernel-frame:documented outputs are among '
+                      'the arguments the Python-side contract lists' % fn,
+                      'kernel-frame', 'proved' if ok else 'refuted',
+                      'blas.%s writes %s; the Python-side contract lists %s'
+                      % (fn, sorted(set(outs)), sorted(assumed)),
+                      'blas.c:%s' % fn, by=['table comparison']))
+        bad_frame = [o for o in r['obligations'] if o['kind'] == 'frame' and
+                     o['status'] != 'proved']
+        report.add(Ob('blas.c:%s:kernel-frame:the wrapper stores only into '
+                      'its documented outputs' % fn, 'kernel-frame',
+                      'proved' if not bad_frame else 'refuted',
+                      'frame obligations of the C17 row of blas.%s' % fn,
+                      'blas.c:%s' % fn, by=['z3']))
